@@ -62,6 +62,7 @@ func nrules(p *load.Program, f *fsm, s *oblig.Set) {
 	for {
 		paths++
 		in := absint.NewInterp(p.SSA, o)
+		in.MaxStep = 5000 // one trip through the scanning loop is a few hundred steps
 		F := absint.NewVarRange("F", intT, absint.I64(0), nil)
 		T := absint.NewVarRange("T", intT, absint.I64(0), nil)
 		lex := absint.Zero(lexT).(*absint.Struct)
@@ -140,6 +141,12 @@ func nrules(p *load.Program, f *fsm, s *oblig.Set) {
 				ff[f.fAdv] = absint.NewVar("ADV", types.Typ[types.Bool])
 				ff[f.fTyp] = absint.NewVar("KIND", f.strT.Field(f.fTyp).Type())
 				ff[f.fErr] = absint.NewVar("STERR", f.strT.Field(f.fErr).Type())
+				// whatever else a state function may answer is unknown to the loop
+				for i := 0; i < f.strT.NumFields(); i++ {
+					if i != f.fNext && i != f.fEmit && i != f.fAdv && i != f.fTyp && i != f.fErr {
+						ff[i] = absint.NewVar("STATE."+f.strT.Field(i).Name(), f.strT.Field(i).Type())
+					}
+				}
 				strRes = &absint.Struct{T: zs.T, F: ff}
 				return strRes, true
 			}
@@ -162,7 +169,7 @@ func nrules(p *load.Program, f *fsm, s *oblig.Set) {
 		}
 		oc.conds = append([]string(nil), in.CondLog...)
 		outs = append(outs, oc)
-		if !o.Next() || paths > 4000 {
+		if !o.Next() || paths > 600 {
 			break
 		}
 	}
